@@ -254,6 +254,8 @@ class FolderObservation(AbstractObservation, discriminator="folder"):
         if self.files:
             obs["FILES"] = {i + 1: file.observe(state) for i, file in enumerate(self.files)}
 
+        # remember what was shown: between scans the folder keeps reporting the last-scanned health
+        self.cached_obs = obs
         return obs
 
     @property
